@@ -289,6 +289,11 @@ impl<F: Field> Region<'_, F> {
         let cell =
             self.region.assign_advice(&|| annotation().into(), column, offset, &mut || {
                 let v = to();
+                #[cfg(midnight_zk_verif)]
+                let v = v.map(|mut x| {
+                    crate::verif_hook::on_assign::<VR, F>(&mut x, column.index(), offset);
+                    x
+                });
                 let value_f = v.to_field();
                 value = v;
                 value_f
